@@ -373,6 +373,16 @@ def check(case) -> list[Fail]:
         d = first_tree_diff(ttree(y), expect_tree(tr0, have_types))
         if d:
             f.append(Fail("resolve-types", f"bare-type:{_loc(d)}", str(d)))
+        # the expression that was resolved is itself unchanged (it may be shared with other ops), so
+        # resolving it against a registry that knows nothing still finds nothing
+        if ttree(x) != tr0:
+            f.append(Fail("resolve-types", "bare-type:input-expression-modified", f"{tr0} -> {ttree(x)}"[:300]))
+        else:
+            import hugr.ext as hext
+
+            z = x.resolve(hext.ExtensionRegistry())
+            if ttree(z) != tr0:
+                f.append(Fail("resolve-types", "bare-type:resolved-against-empty-registry", f"{tr0} -> {ttree(z)}"[:300]))
         if ttree(yy) != ttree(y):
             f.append(Fail("idempotent", "bare-type", ""))
         if y.type_bound() != x.type_bound():
